@@ -222,7 +222,7 @@ func genC12(cfg Config, ws *WorldSet, i int) C12Case {
 		outArg = altOut(r, world)
 	}
 	mkInv := func() *Invocation {
-		form := sim.Pick(r, []string{"rel-pkgdir", "rel-pkgdir", "rel-pkgdir", "rel-modroot", "gofile", "abs"})
+		form := sim.Pick(r, []string{"rel-pkgdir", "rel-pkgdir", "rel-pkgdir", "rel-modroot", "gofile", "abs", "symlink-modroot"})
 		cwd, in, gofile := InputForm(form, setup)
 		iv := &Invocation{Cwd: cwd, Input: in, GoFile: gofile, OutArg: outArg}
 		switch r.Intn(10) {
@@ -239,8 +239,15 @@ func genC12(cfg Config, ws *WorldSet, i int) C12Case {
 	outPath := ResolveOut(filepath.Dir(setup), filepath.Base(setup), "", outArg)
 	runStep := func() Step {
 		s := Step{Op: "run", Inv: mkInv(), Bin: "sim", Plan: &sim.Plan{Markers: genMarkers(r, 4)}}
-		if r.Chance(1, 4) {
+		switch r.Intn(8) {
+		case 0, 1:
 			s.Bin, s.Plan = "plain", nil
+		case 2:
+			// not a fault but a circumstance: in this environment no file can be moved
+			// onto the output path (the temporary directory is on another file system,
+			// the target is busy). The twin runs in the same environment.
+			s.Plan.Faults = []sim.Fault{{Op: "OUTPUT-COMMIT", Path: s.Inv.OutPath, Kind: "err", Errno: sim.Pick(r, []string{"EXDEV", "EXDEV", "EBUSY"})}}
+			s.Note = "env:no-move-onto-output"
 		}
 		return s
 	}
@@ -372,10 +379,16 @@ func genC12Edit(cfg Config, ws *WorldSet, wi, t int) C12Case {
 }
 
 // genC12Enum: every truncation point (and zero-filled tail) of the canonical output.
-func genC12Enum(ws *WorldSet, wi, k int, zero bool) C12Case {
+func genC12Enum(ws *WorldSet, wi, k int, zero, link bool) C12Case {
 	world := ws.Worlds[wi]
 	canon := ws.Canon[wi]
 	iv := SetupInv(world)
+	if link {
+		// the same, with the module entered through a symbolic link (logical and
+		// physical spelling of every path differ)
+		cwd, in, _ := InputForm("symlink-modroot", "{W}/"+world.Setup)
+		iv = Invocation{Cwd: cwd, Input: in, OutPath: ResolveOut(cwd, in, "", "")}
+	}
 	var st Step
 	if zero {
 		d := append([]byte(nil), canon.Out...)
@@ -389,7 +402,7 @@ func genC12Enum(ws *WorldSet, wi, k int, zero bool) C12Case {
 	return C12Case{World: world, Mode: "enum", Steps: []Step{st, {Op: "run", Inv: &iv, Bin: "plain"}}}
 }
 
-type twinKey struct{ world, setup, args, gofile, cwd string }
+type twinKey struct{ world, setup, args, gofile, cwd, env string }
 
 type twinEntry struct {
 	once sync.Once
@@ -401,7 +414,7 @@ type twinEntry struct {
 // function of (world, setup file content, invocation) only.
 var twinCache sync.Map
 
-func runTwin(env *sim.Env, world *sim.WorldSpec, curSetup string, inv *Invocation, st *Stats) (*StepResult, error) {
+func runTwin(env *sim.Env, world *sim.WorldSpec, curSetup string, inv *Invocation, envPlan *sim.Plan, st *Stats) (*StepResult, error) {
 	tw := world.Clone()
 	tw.Files[tw.Setup] = curSetup
 	troot, err := env.NewWorldDir(tw, "c12twin")
@@ -409,13 +422,39 @@ func runTwin(env *sim.Env, world *sim.WorldSpec, curSetup string, inv *Invocatio
 		return nil, err
 	}
 	defer env.DropWorldDir(troot)
-	rs := ExecSteps(env, troot, []Step{{Op: "remove", Path: inv.OutPath}, {Op: "run", Inv: inv, Bin: "plain"}}, st)
+	ExecSteps(env, troot, []Step{c12Link}, nil)
+	run := Step{Op: "run", Inv: inv, Bin: "plain"}
+	if envPlan != nil {
+		// the same circumstances as the run it is the reference for
+		run.Bin, run.Plan = "sim", &sim.Plan{Faults: append([]sim.Fault(nil), envPlan.Faults...)}
+	}
+	rs := ExecSteps(env, troot, []Step{{Op: "remove", Path: inv.OutPath}, run}, st)
 	if rs[1].Err != nil || rs[1].Obs == nil || strings.HasPrefix(rs[1].Obs.Status, "starterr") {
 		return nil, fmt.Errorf("twin run: %v", rs[1].Err)
 	}
 	rs[1].Obs.Stderr = []byte(sim.Unsubst(string(rs[1].Obs.Stderr), troot))
 	st.Inc("n:twin_runs")
 	return &rs[1], nil
+}
+
+// every C12 world (and every twin's) has a symbolic link to the module root
+// next to it, for the histories that enter the module through it
+var c12Link = Step{Op: "symlink", Path: "{W}/elsewhere/modlink", Data: []byte("{W}/mod")}
+
+// envPlanOf: the part of a compared run's plan that describes its environment
+// (as opposed to a fault of that run), which its twin shares.
+func envPlanOf(s *Step) *sim.Plan {
+	if strings.HasPrefix(s.Note, "env:") && s.Plan != nil && len(s.Plan.Faults) > 0 {
+		return s.Plan
+	}
+	return nil
+}
+
+func envOf(s *Step) string {
+	if p := envPlanOf(s); p != nil {
+		return s.Note + ":" + p.Faults[0].Errno
+	}
+	return ""
 }
 
 func execC12(env *sim.Env, c C12Case) CaseResult {
@@ -427,15 +466,16 @@ func execC12(env *sim.Env, c C12Case) CaseResult {
 		return res
 	}
 	defer env.DropWorldDir(root)
+	ExecSteps(env, root, []Step{c12Link}, nil)
 	curSetup := c.World.Files[c.World.Setup]
 	lastResidue := "none"
 	cut := ""
 	var logParts []string
 	twinOf := func(s *Step) (*StepResult, error) {
-		key := twinKey{c.World.Digest(), sim.HashBytes([]byte(curSetup)), strings.Join(s.Inv.Args(), " "), s.Inv.GoFile, s.Inv.Cwd}
+		key := twinKey{c.World.Digest(), sim.HashBytes([]byte(curSetup)), strings.Join(s.Inv.Args(), " "), s.Inv.GoFile, s.Inv.Cwd, envOf(s)}
 		ei, _ := twinCache.LoadOrStore(key, &twinEntry{})
 		e := ei.(*twinEntry)
-		e.once.Do(func() { e.res, e.err = runTwin(env, c.World, curSetup, s.Inv, st) })
+		e.once.Do(func() { e.res, e.err = runTwin(env, c.World, curSetup, s.Inv, envPlanOf(s), st) })
 		return e.res, e.err
 	}
 	for si := range c.Steps {
@@ -541,7 +581,7 @@ func execC12(env *sim.Env, c C12Case) CaseResult {
 			if r.Obs.Status != tw.Obs.Status || (tw.OutExists && !s.Inv.Dry && !bytes.Equal(r.OutBytes, tw.OutBytes)) || (s.Inv.Print && !bytes.Equal(r.Obs.Stdout, tw.Obs.Stdout)) {
 				// before blaming the residue make sure the reference itself is stable:
 				// an output that differs between two pristine runs is C13's business
-				tw2, err := runTwin(env, c.World, curSetup, s.Inv, st)
+				tw2, err := runTwin(env, c.World, curSetup, s.Inv, envPlanOf(&s), st)
 				if err == nil && (tw2.Obs.Status != tw.Obs.Status || !bytes.Equal(tw2.OutBytes, tw.OutBytes) || !bytes.Equal(tw2.Obs.Stdout, tw.Obs.Stdout)) {
 					st.Inc("n:unstable_reference_skipped")
 					st.Note("world %s: two pristine runs differ (status %s/%s, out %s/%s): comparison skipped, see C13", c.World.Name, tw.Obs.Status, tw2.Obs.Status, sim.HashBytes(tw.OutBytes), sim.HashBytes(tw2.OutBytes))
@@ -691,6 +731,7 @@ func runC12(cfg Config, args []string) int {
 	type enumItem struct {
 		wi, k int
 		zero  bool
+		link  bool
 	}
 	var enum []enumItem
 	enumWorlds := cfg.N(0, 10)
@@ -707,14 +748,22 @@ func runC12(cfg Config, args []string) int {
 		L := len(canon[wi].Out)
 		if stride == 0 {
 			for k := 0; k <= 80 && k <= L; k++ {
-				enum = append(enum, enumItem{wi, k, false})
+				enum = append(enum, enumItem{wi, k, false, false})
 			}
 			for k := 60; k <= 80 && k <= L; k += 4 {
-				enum = append(enum, enumItem{wi, k, true})
+				enum = append(enum, enumItem{wi, k, true, false})
+			}
+			if cnt == 1 {
+				for k := 60; k <= 80 && k <= L; k++ {
+					enum = append(enum, enumItem{wi, k, false, true})
+				}
 			}
 		} else {
 			for k := 0; k <= L; k++ {
-				enum = append(enum, enumItem{wi, k, false}, enumItem{wi, k, true})
+				enum = append(enum, enumItem{wi, k, false, false}, enumItem{wi, k, true, false})
+				if cnt <= 2 {
+					enum = append(enum, enumItem{wi, k, false, true})
+				}
 			}
 		}
 	}
@@ -747,7 +796,7 @@ func runC12(cfg Config, args []string) int {
 	b := &Batch[C12Case]{Property: "C12", Level: "fault_enumeration", Cfg: cfg, Env: env, N: nHist + len(enum) + len(rec) + len(edits),
 		Gen: func(i int) C12Case {
 			if i < len(enum) {
-				return genC12Enum(ws, enum[i].wi, enum[i].k, enum[i].zero)
+				return genC12Enum(ws, enum[i].wi, enum[i].k, enum[i].zero, enum[i].link)
 			}
 			if i < len(enum)+len(rec) {
 				return genC12Recovery(cfg, ws, rec[i-len(enum)].wi, rec[i-len(enum)].t)
